@@ -220,3 +220,32 @@ package mapping
 //@   call SetString#*: assert vok && arg_x == envVal
 //@   call fillDurationValue#*: assert vok && arg_dur == envVal
 //@   call processFieldPrimitiveWithJSONNumber#*: assert vok && arg_opts == opts
+
+// required fields: a field of a scalar kind (anything but array, map, slice, struct - behind any number of pointers) that
+// was not supplied, has no default and is not being default-filled is accepted only if it is optional; with a default,
+// exactly the declared default text is what gets set
+//@ func Deref
+//@   trusted
+//@   pure
+//@   modifies nothing
+//@ func newInitError
+//@   property C08
+//@   ensures result != nil
+//@   modifies nothing
+//@   allocates
+//@ spec scalarKind(k reflect.Kind) bool = k != reflect.Array && k != reflect.Map && k != reflect.Slice && k != reflect.Struct
+//@ func (u *Unmarshaler) processNamedFieldWithoutValue
+//@   property C08
+//@   ensures implies(result == nil && !(opts != nil && len(old(opts.Default)) > 0) && !old(u.opts.fillDefault) && scalarKind(Deref(fieldType).Kind()), opts != nil && old(opts.Optional))
+//@   call setValueFromString#*: assert arg_str == opts.Default
+//@   call fillDurationValue#*: assert arg_dur == opts.Default
+//@   call fillSliceWithDefault#*: assert arg_defaultValue == opts.Default
+//@   call processFieldNotFromString#*: assert arg_opts == opts
+
+// a supplied null is accepted only for an optional field; every other supplied value goes on, with the field's own option
+// set, to the string path (string option / string-valued sources) or to the typed path
+//@ func (u *Unmarshaler) processNamedFieldWithValue
+//@   property C08
+//@   ensures implies(result == nil && vp.value == nil, opts != nil && opts.Optional)
+//@   call processFieldNotFromString#*: assert arg_opts == opts && arg_vp.value == vp.value
+//@   call processNamedFieldWithValueFromString#*: assert arg_opts == opts && arg_mapValue == vp.value
